@@ -348,6 +348,10 @@ def _obs_gen(case):
         else:
             gen = asyncstdlib.await_each(arg) if side == "impl" else _ref_each(arg)
         out[side] = run_gen(env, gen, case["ops"])
+        if case["t"] == "await_each":
+            import inspect
+            # what is left of the awaitables nobody asked for: a coroutine must still be startable by its owner
+            out[side + "_left"] = [inspect.getcoroutinestate(c) for c in env.coros]
         env.finish()
     return out
 
@@ -542,8 +546,61 @@ async def _plain_call(f, args, kwargs):
     return f(*args, **kwargs)
 
 
+def _obs_syncseq(case):
+    """one `sync(f)` wrapper called several times; the n-th call of `f` answers in style styles[n]:
+    "p" plain value, "a" awaitable of the value, "P"/"A" the same but failing"""
+    out = {}
+    for side in ("impl", "ref"):
+        env = Env()
+        state = {"n": 0}
+
+        async def aw(n, fail, env=env):
+            for t in aw_toks(n, case["toks"]):
+                await Susp(t)
+            if fail:
+                raise UserExc(60 + n)
+            return Item(700 + n, 700 + n)
+
+        def f(*a, state=state, env=env, aw=aw):
+            n = state["n"]
+            state["n"] += 1
+            env.log.append(["call", n])
+            st = case["styles"][n]
+            if st == "p":
+                return Item(700 + n, 700 + n)
+            if st == "P":
+                raise UserExc(60 + n)
+            c = aw(n, st == "A")
+            env.coros.append(c)
+            return c
+        if case.get("obj"):
+            class F:
+                def __call__(self, *a):
+                    return f(*a)
+            target = F()
+        else:
+            target = f
+        w = asyncstdlib.sync(target) if side == "impl" else None
+        res = []
+        for n, st in enumerate(case["styles"]):
+            if side == "impl":
+                try:
+                    r = drive(w(n), env.reply)
+                except BaseException as exc:  # noqa: B036
+                    res.append(["call-raised", exc_name(exc)])
+                    continue
+            else:
+                r = drive(_await_call(target, (n,), {}) if st in "aA" else _plain_call(target, (n,), {}), env.reply)
+            res.append(_res(r))
+        out[side] = [env.log, res]
+        env.finish()
+    return out
+
+
 def observe(case):
     t = case["t"]
+    if t == "syncseq":
+        return _obs_syncseq(case)
     if t in ("any_iter", "await_each"):
         return _obs_gen(case)
     if t == "apply":
@@ -568,6 +625,8 @@ def _item_json(i, s):
 
 def model_request(case):
     t = case["t"]
+    if t == "syncseq":
+        return None     # oracle-only: every call is an instance of the single-call statement C19_sync_same
     if t in ("any_iter", "await_each"):
         mk = MODEL_KIND[case["kind"]]
         pt = _ptoks(case)
@@ -689,6 +748,16 @@ def _judge_gen(case, obs, model):
         bad = _lazy_violation(case, impl)
         if bad is not None:
             issues.append(Issue("oracle", bad, "await_each-not-lazy"))
+        # "only when its consumer asks": the source of awaitables is advanced exactly as the hand-written loop advances it
+        # (no pull while closing, none beyond the items asked for), and awaitables nobody asked for are left untouched
+        pulls = [[e for e in evs if e[0] == "pull"] for evs, _ in impl]
+        rpulls = [[e for e in evs if e[0] == "pull"] for evs, _ in ref]
+        if impl_outs == ref_outs and pulls != rpulls:
+            issues.append(Issue("oracle", {"impl_pulls_per_op": [len(x) for x in pulls], "handwritten": [len(x) for x in rpulls],
+                                           "ops": case["ops"]}, "await_each-source-advanced-unasked"))
+        if impl_outs == ref_outs and obs.get("impl_left") != obs.get("ref_left"):
+            issues.append(Issue("oracle", {"impl": obs.get("impl_left"), "handwritten": obs.get("ref_left")},
+                                "await_each-touched-unrequested-awaitables"))
     if ref_outs != want:
         issues.append(Issue("B", {"handwritten": ref_outs, "expected": want}))
     if model is not None:
@@ -789,6 +858,11 @@ def _judge_sync(case, obs, model):
 
 
 def judge(case, obs, model):
+    if case["t"] == "syncseq":
+        if obs["impl"] != obs["ref"]:
+            return [Issue("oracle", {"impl": obs["impl"], "native": obs["ref"], "styles": case["styles"]},
+                          "sync-result-depends-on-earlier-calls")]
+        return []
     t = case["t"]
     if t in ("any_iter", "await_each"):
         return _judge_gen(case, obs, model)
@@ -815,6 +889,8 @@ def features(case, obs):
     elif t == "apply":
         f += ["apply:n=%d" % len(case["items"]), "apply:positional=%d" % case["split"],
               "apply:keywords=%d" % (len(case["items"]) - case["split"]), "apply:result=" + obs["impl"][1][0]]
+    elif t == "syncseq":
+        f += ["syncseq:styles=" + "".join(case["styles"])]
     else:
         f += ["sync:variant=" + case["variant"], "sync:" + obs["synced"], "sync:result=" + obs["impl"][1][0]]
     return f
@@ -824,6 +900,8 @@ def nontrivial(case, obs):
     t = case["t"]
     if t in ("any_iter", "await_each"):
         return any(out[0] in ("item", "raised") for _, out in obs["impl"])
+    if t == "syncseq":
+        return True
     return bool(obs["impl"][0]) or obs["impl"][1][0] == "err"
 
 
@@ -981,7 +1059,17 @@ def _random_case(rng, big):
             "outer": outer, "ptoks": [rng.randint(0, 2) for _ in range(n + 1)]}
 
 
+def _syncseq_cases():
+    import itertools as _it
+    for n in (2, 3):
+        for styles in _it.product("paPA", repeat=n):
+            for toks in (0, 1):
+                for obj in (False, True):
+                    yield {"t": "syncseq", "styles": list(styles), "toks": toks, "obj": obj}
+
+
 def cases(tier, rng):
+    yield from _syncseq_cases()
     yield from _gen_cases(tier)
     yield from _odd_cases()
     yield from _apply_cases(tier)
